@@ -31,13 +31,26 @@ VALUES: Dict[str, Dict[str, Any]] = {
     "bytes": {"V1": bytes([0x0A, 0x01]), "V2": bytes([0x0A, 0x02]), "other": bytes([0x0B, 0xFF])},
     "float": {"V1": 1.5, "V2": 2.5, "other": 7.25},
     "dtc": {"V1": 0x1234, "V2": 0x5678, "other": 0x9ABC},
+    # the same kinds with a FALSY "value 1" (0, 0.0, empty string, empty byte field): a value that is present but falsy
+    # is still a value and must equal the expected text "0" / "0.0" / "" ; the strings / byte fields are MIN-MAX-LENGTH
+    # types (0..4 bytes, zero-terminated) because a standard-length type cannot be empty
+    "u8z": {"V1": 0, "V2": 2, "other": 3},
+    "floatz": {"V1": 0.0, "V2": 2.5, "other": 7.25},
+    "asciiz": {"V1": "", "V2": "V2", "other": "XX"},
+    "bytesz": {"V1": b"", "V2": bytes([0x0A, 0x02]), "other": bytes([0x0B, 0xFF])},
 }
+# A possibly empty payload would make the positive response as short as the negative response `7F 22 31`, which odxtools
+# then decodes with the positive response under a constant-mismatch warning (DON'T-CARE): these services carry a constant
+# byte in front of the payload, so that a negative response stays undecodable for the positive response.
+PADDED_TYPES = ("asciiz", "bytesz")
+KIND = {"u8z": "u8", "floatz": "float", "asciiz": "ascii", "bytesz": "bytes"}  # comparison kind of the falsy variants
 LAYOUTS = ("top", "toppath", "struct", "field", "tstruct")
 
 
 def expected_text(typ: str, v: Any) -> str:
     """The EXPECTED-VALUE text that denotes python value v of the given type (the canonical spelling; other
     spellings -- leading zeros, lower-case hex, '1.50' -- are DON'T-CARE and not generated)."""
+    typ = KIND.get(typ, typ)
     if typ == "u8":
         return str(v)
     if typ == "ascii":
@@ -52,6 +65,7 @@ def expected_text(typ: str, v: Any) -> str:
 
 
 def value_equals(typ: str, expected: str, v: Any) -> bool:
+    typ = KIND.get(typ, typ)
     if typ == "u8":
         return expected == str(v)
     if typ == "ascii":
@@ -66,6 +80,11 @@ def value_equals(typ: str, expected: str, v: Any) -> bool:
 
 
 def wire(typ: str, v: Any) -> bytes:
+    if typ == "asciiz":
+        return v.encode("latin-1") + b"\x00"  # MIN-MAX-LENGTH, ZERO termination (always sent, also at the end of the PDU)
+    if typ == "bytesz":
+        return bytes(v) + b"\x00"
+    typ = KIND.get(typ, typ)
     if typ == "u8":
         return bytes([v])
     if typ == "ascii":
@@ -107,7 +126,7 @@ def response_bytes(svc: Dict[str, Any], answer: str, own: bool = False) -> bytes
     body = b"".join(wire(svc["type"], v) for v in item_values(svc, answer))
     if svc["layout"] == "tstruct":
         body = bytes([0x01]) + body  # table key selecting the only row
-    if own:
+    if own or svc["type"] in PADDED_TYPES:
         body = bytes([OWN_PAD]) + body  # a variant's own re-definition also has another response layout
     return bytes([0x62]) + did + body
 
